@@ -58,10 +58,14 @@ pub fn check(a: &Analysis, _aux: &mut Aux, t: &mut Tally) -> Vec<Violation> {
     }
     // "so memory use is independent of the volume of unvalidated traffic": over a long stretch of
     // one epoch in which no flow is validated, the resident memory of the node process (sampled
-    // every 2048th frame) stays where it was. The first 16 384 frames of a run are warm-up (code
-    // pages, allocator pools); the allowance is generous (2 MiB over at least 100 000 frames; the unchanged responder shows 0 KiB), so
-    // that only growth in proportion to the traffic is reported.
-    let mut first: Option<(usize, u64, usize, u32)> = None; // (position, rss, table size, epoch)
+    // every 2048th frame) does not grow in proportion to the traffic. The first 16 384 frames of
+    // a run are warm-up (code pages, allocator pools). A stretch of at least 100 000 frames is
+    // judged: growth of more than 2 MiB over the whole stretch AND of more than 768 KiB over its
+    // second half is reported - a bounded structure that fills up and then stays (a cache, a
+    // pool) passes, a leak does not. The unchanged responder shows 0 KiB over 10^6 frames.
+    let mut samples: Vec<(usize, u64, usize)> = Vec::new(); // (position, rss, step index) of the current stretch
+    let mut cur: Option<(usize, u32)> = None; // (table size, epoch) of the current stretch
+    let mut reported = false;
     for (k, s) in a.steps.iter().enumerate() {
         let rss = match s.rss_kb {
             Some(r) => r,
@@ -70,29 +74,28 @@ pub fn check(a: &Analysis, _aux: &mut Aux, t: &mut Tally) -> Vec<Violation> {
         if k < 16_384 {
             continue;
         }
-        match first {
-            Some((_, _, tl, ep)) if tl == s.tcb_len && ep == s.epoch => {}
-            _ => {
-                first = Some((k, rss, s.tcb_len, s.epoch));
-                continue;
-            }
+        if cur != Some((s.tcb_len, s.epoch)) {
+            cur = Some((s.tcb_len, s.epoch));
+            samples.clear();
         }
-        let (k0, r0, _, _) = first.unwrap();
-        if k - k0 >= 100_000 {
+        samples.push((k, rss, s.idx));
+        let (k0, r0, _) = samples[0];
+        if k - k0 >= 100_000 && !reported {
             t.probe("memory-window-100k-unvalidated-frames");
             let allow: u64 = std::env::var("VERIF_MEM_ALLOW_KB").ok().and_then(|s| s.parse().ok()).unwrap_or(2048);
-            if rss > r0 + allow {
+            let mid = samples.iter().find(|x| x.0 >= k0 + (k - k0) / 2).map(|x| x.1).unwrap_or(r0);
+            if rss > r0 + allow && rss > mid + allow * 3 / 8 {
+                reported = true;
                 v.push(Violation {
                     prop: "C09",
                     rule: "memory-growth".into(),
                     key: "memory-grows-with-unvalidated-traffic".into(),
                     step: s.idx,
                     detail: format!(
-                        "resident memory of the responder grew from {} KiB to {} KiB over {} frames that validated no flow (connection table constant at {} entries)",
-                        r0, rss, k - k0, s.tcb_len
+                        "resident memory of the responder grew from {} KiB to {} KiB ({} KiB at half way) over {} frames that validated no flow (connection table constant at {} entries)",
+                        r0, rss, mid, k - k0, s.tcb_len
                     ),
                 });
-                break;
             }
         }
     }
